@@ -183,8 +183,8 @@ func (fl *FileList) addSingleFile(info lineInfo) error {
 func getXattrs(filename string) map[string]string {
 	namebuf := make([]byte, 256)
 	sz, err := unix.Listxattr(filename, namebuf)
-	if sz > cap(namebuf) {
-		namebuf = make([]byte, sz+1)
+	for err == unix.ERANGE {
+		namebuf = make([]byte, 2 * len(namebuf))
 		sz, err = unix.Listxattr(filename, namebuf)
 	}
 	if err != nil {
@@ -193,10 +193,13 @@ func getXattrs(filename string) map[string]string {
 	xattrs := map[string]string{}
 	value := make([]byte, 1024)
 	for _, nm := range bytes.Split(namebuf[:sz], []byte{0}) {
+		if len(nm) == 0 {
+			continue
+		}
 		name := string(nm)
 		sz, err := unix.Getxattr(filename, name, value)
-		if sz > cap(value) {
-			value = make([]byte, sz+1)
+		for err == unix.ERANGE {
+			value = make([]byte, 2 * len(value))
 			sz, err = unix.Getxattr(filename, name, value)
 		}
 		if err != nil {
